@@ -9,6 +9,9 @@
 //   answer:  "<lzma_ret> <in_pos> <out_pos> <out hex>"
 //            rawmulti: LZMA_BUF_ERROR (no progress possible) is printed as 0; LZMA_DATA_ERROR is printed as "9" alone.
 //   kind: 1 = LZMA_FILTER_LZMA1, 2 = LZMA_FILTER_LZMA1EXT, 3 = LZMA_FILTER_LZMA2
+//   rawr / rawmultir: the same on ONE PERSISTENT lzma_stream that is re-initialised with lzma_raw_decoder() for every
+//            such op and never lzma_end()ed in between (handle reuse after success / error / abandoned decoding, with the
+//            same or another filter): the answer must be the fresh-handle answer.
 //
 //   dict …   see c03_dict.c (real static inline dictionary functions of lz_decoder.h)
 #include "hproto.h"
@@ -68,13 +71,16 @@ static size_t next_slice(const char *list, const char **state)
 int main(void)
 {
 	hp_line l = {0};
+	lzma_stream pstrm = LZMA_STREAM_INIT;   // the persistent handle of rawr / rawmultir
 	while (hp_next(&l)) {
 		const char *op = l.tok[0];
 		setup s;
-		if (!strcmp(op, "raw") && l.ntok == 11 && parse_common(&l, &s)) {
+		const bool reuse = !strcmp(op, "rawr") || !strcmp(op, "rawmultir");
+		if ((!strcmp(op, "raw") || !strcmp(op, "rawr")) && l.ntok == 11 && parse_common(&l, &s)) {
 			size_t n; uint8_t *in = hp_hex(l.tok[10], &n);
 			uint8_t *out = malloc(s.outcap ? s.outcap : 1);
-			lzma_stream strm = LZMA_STREAM_INIT;
+			lzma_stream fresh = LZMA_STREAM_INIT;
+			lzma_stream strm = reuse ? pstrm : fresh;
 			lzma_ret ret = lzma_raw_decoder(&strm, s.filters);
 			if (ret != LZMA_OK) {
 				answer(ret, 0, 0, out);
@@ -84,7 +90,12 @@ int main(void)
 				ret = lzma_code(&strm, LZMA_FINISH);
 				answer(ret, strm.total_in, strm.total_out, out);
 			}
-			lzma_end(&strm);
+			if (reuse) {
+				strm.next_in = NULL; strm.avail_in = 0; strm.next_out = NULL; strm.avail_out = 0;
+				pstrm = strm;
+			} else {
+				lzma_end(&strm);
+			}
 			free(in); free(out); free(s.preset);
 		} else if (!strcmp(op, "rawbuf") && l.ntok == 11 && parse_common(&l, &s)) {
 			size_t n; uint8_t *in = hp_hex(l.tok[10], &n);
@@ -93,11 +104,13 @@ int main(void)
 			lzma_ret ret = lzma_raw_buffer_decode(s.filters, NULL, in, &in_pos, n, out, &out_pos, s.outcap);
 			answer(ret, in_pos, out_pos, out);
 			free(in); free(out); free(s.preset);
-		} else if (!strcmp(op, "rawmulti") && l.ntok == 13 && parse_common(&l, &s)) {
+		} else if ((!strcmp(op, "rawmulti") || !strcmp(op, "rawmultir")) && l.ntok == 13 && parse_common(&l, &s)) {
 			size_t n; uint8_t *in = hp_hex(l.tok[12], &n);
 			uint8_t *out = malloc(s.outcap ? s.outcap : 1);
 			const char *ic = "", *oc = "";
-			lzma_stream strm = LZMA_STREAM_INIT;
+			lzma_stream fresh = LZMA_STREAM_INIT;
+			lzma_stream strm = reuse ? pstrm : fresh;
+			strm.avail_in = 0; strm.avail_out = 0;
 			lzma_ret ret = lzma_raw_decoder(&strm, s.filters);
 			if (ret != LZMA_OK) {
 				answer(ret, 0, 0, out);
@@ -125,7 +138,12 @@ int main(void)
 				else
 					answer(ret == LZMA_BUF_ERROR ? 0 : ret, strm.total_in, strm.total_out, out);
 			}
-			lzma_end(&strm);
+			if (reuse) {
+				strm.next_in = NULL; strm.avail_in = 0; strm.next_out = NULL; strm.avail_out = 0;
+				pstrm = strm;
+			} else {
+				lzma_end(&strm);
+			}
 			free(in); free(out); free(s.preset);
 		} else if (!strcmp(op, "dict")) {
 			if (!h_dict_op(&l))
@@ -134,6 +152,7 @@ int main(void)
 			printf("bad-op\n");
 		}
 	}
+	lzma_end(&pstrm);
 	hp_done(&l);
 	return 0;
 }
